@@ -412,4 +412,32 @@ def iqlNodeWith (gcf : Cache → Kind → Cache × Option Kind) (m : Method) : N
 def iqlNode (m : Method) : Node Cache IqlSt Pt Out := iqlNodeWith (getCreateFn m) m
 def iqlNodeOld (m : Method) : Node Cache IqlSt Pt Out := iqlNodeWith (getCreateFnOld m) m
 
+/-! ### recording receiver (ties `Demux.step` to the real `groupedConsumer` on every message type) -/
+
+def recKind : Msg Nat → String
+  | .point _ _ => "P" | .barrier _ _ => "R" | .buffered _ _ => "B" | .begin _ _ => "B"
+  | .batchPoint _ => "p" | .endBatch _ => "E" | .delete _ _ => "D"
+
+structure RecSt where
+  first : String      -- kind of the message `NewGroup` was called with
+  n : Nat             -- calls this receiver has seen
+deriving Repr, Inhabited
+
+structure RecOut where
+  call : String
+  n : Nat
+  first : String
+deriving Repr, Inhabited, DecidableEq
+
+/-- The harness' recording `GroupedReceiver`: a per-group call counter. A buffered batch of `k` points reaches a
+plain receiver as `BeginBatch`, `k` × `BatchPoint`, `EndBatch` (`receiveBufferedBatch`). -/
+def recNode : Node Unit RecSt Nat RecOut :=
+  { newGroup := fun _ _ m => ((), { first := recKind m, n := 0 }),
+    recv := fun _ s m => ((),
+      let calls := match m with
+        | .buffered _ k => "B" :: (List.replicate k "p" ++ ["E"])
+        | _ => [recKind m]
+      ({ s with n := s.n + calls.length },
+       calls.zipIdx.map (fun ci => { call := ci.1, n := s.n + ci.2 + 1, first := s.first }))) }
+
 end Kap.C06
